@@ -269,7 +269,7 @@ func (t *distributedPlan) Schema() logical.Schema {
 }
 
 func (t *distributedPlan) Limit(maxVal int) {
-	t.maxElementSize = uint32(maxVal)
+	t.maxElementSize = logical.SaturatingUint32(maxVal)
 }
 
 var _ sort.Comparable = (*comparableElement)(nil)
